@@ -605,7 +605,8 @@ class Check:
         cov["trusted_base"] = list(cov["trusted_base"]) + self.trusted + [
             "Coq 8.16.1 kernel (vm_compute used; no native_compute)",
             "axioms: none (Print Assumptions of every property theorem must read 'Closed under the global context')",
-            "tools/c2v.py translator + clang JSON AST (Gen/Generated.v regenerated from /repo on this run)",
+            "tools/c2v.py translator + clang JSON AST (Gen/Generated.v, GeneratedMem.v, GeneratedMemW.v, GeneratedIp.v, GeneratedFsm*.v, "
+            "LockSkeletons.v regenerated from /repo on this run; the memory-mode part is tested against the compiled functions by tools/footer_diff.py)",
             "extraction: ExtrOcamlBasic only: " + "; ".join(extraction_directives()),
             "correspondence harness (C drivers in /verif/harness, generators and canonicalisation in tools/), gcc, sanitizers",
         ]
